@@ -58,6 +58,32 @@ CLAIMED["C03"] = (
     "Trusted: TLC, Utf8.tla (cross-checked against std on every vector), catch_unwind as the panic observer.",
     "DESIGN §5 C03")
 
+CLAIMED["C13"] = (
+    "TLA+ spec of the Parser struct (Parser.tla: remainder window, separately kept start_offset, direction, "
+    "split flag; one action per method x argument) model-checked by TLC over the complete finite state graph; "
+    "every distinct state replayed on the real Parser via its witness path and all 45 operations compared; "
+    "long recorded histories validated against Trace_Parser.tla",
+    "Exhaustive within bounds: every operation history (any length; the graph is finite) over all strings of "
+    "<=4 characters of {a , n-tilde space 1} and two bases is model-checked for start_offset = base+lo, "
+    "end offset, char boundaries and error offset/direction; every distinct state of the <=3-character graph "
+    "(12k states, 865k compared outcomes; thorough: <=4 characters) is reproduced on the real Parser and "
+    "compared after the path and after each further operation; 15k-160k recorded events of random histories on "
+    "strings up to ~100 bytes must be accepted action by action with all invariants evaluated at every step.",
+    "Trusted: TLC, the reference string functions (bound to the code by C04/C05/C12), the harness' projection "
+    "(position of the remainder inside the original by pointer). Offsets above u32::MAX are not covered.",
+    "DESIGN §5 C13")
+CLAIMED["C14"] = (
+    "same Parser.tla state machine; the transition function (new remainder, returned piece/value, Ok/Err) is "
+    "defined from the reference string functions and the split protocols are TLC invariants (SplitProtocol); "
+    "replay of every distinct state x operation on the real Parser; trace validation of recorded histories",
+    "Exhaustive within bounds over an alphabet including '-' and a digit (prefix integer/bool parsing, split "
+    "family with one- and two-byte delimiters, strip/trim/find): each of the 20k states x 45 operations "
+    "(1.46M outcomes) is compared on the real code for returned value, remainder and failure; the split / "
+    "terminator protocols (pieces of str::split then SplitExhausted) hold in every reachable model state.",
+    "Trusted: as C13. Error kinds are compared only for split/rsplit (the only ones the property names). Empty "
+    "delimiters are outside the property.",
+    "DESIGN §5 C14")
+
 NOT_YET = {}
 
 def main():
